@@ -467,7 +467,11 @@ func conclude(m *Merged, start time.Time) int {
 					break
 				}
 			}
-			if i < 40 {
+			maxPrint := 40
+			if v, err := strconv.Atoi(os.Getenv("VERIF_MAXPRINT")); err == nil && v > 0 {
+				maxPrint = v
+			}
+			if i < maxPrint {
 				fmt.Printf("VIOLATION property=%s replay=%s\n", chk.ID, p)
 				fmt.Printf("  features: %s\n", v.Sig())
 			}
